@@ -175,3 +175,60 @@ def unused_table(run):
         one('function-global-then-assignment', 'def f_():\n    global unused_v\n    unused_v = 1\n', [], path)
         one('function-nonlocal-rebinding', 'def f_():\n    v_ = 1\n    def g_():\n        nonlocal v_\n        v_ = 2\n    return g_, v_\n', [], path)
     core.explore(lambda: None, lambda p, out: go(p))
+
+
+# equivalent layouts of expressions and statements in which the order of the tree differs from the order of the text, each with several
+# undefined names: (label, one-line layout, broken layout)
+ORDER_PAIRS = [
+    ('conditional-expression', 'r = u1 if u2 else u3\n', 'r = (u1\n     if u2\n     else u3)\n'),
+    ('keyword-before-starred-argument', 'r = print(k=u1, *u2)\n', 'r = print(k=u1,\n          *u2)\n'),
+    ('double-starred-before-keyword', 'r = print(**u1, k=u2)\n', 'r = print(**u1,\n          k=u2)\n'),
+    ('decorator-annotations-defaults', '@u1\ndef f_(a_: u2 = u3, *b_: u4, c_: u5 = u6) -> u7: return a_, b_, c_\n',
+     '@u1\ndef f_(a_: u2 = u3,\n       *b_: u4,\n       c_: u5 = u6\n       ) -> u7:\n    return a_, b_, c_\n'),
+    ('class-bases-and-keywords', 'class K_(u1, metaclass=u2, *u3): pass\n', 'class K_(u1,\n         metaclass=u2,\n         *u3):\n    pass\n'),
+    ('lambda-defaults', 'r = lambda a_=u1, *b_, c_=u2: (a_, b_, c_, u3)\n', 'r = (lambda a_=u1,\n     *b_,\n     c_=u2: (a_, b_, c_,\n             u3))\n'),
+    ('dict-and-comprehensions', 'r = {u1: u2 for i_ in u3 if u4}; s = [u5 for j_ in u6]\n', 'r = {u1: u2\n     for i_ in u3\n     if u4}\ns = [u5\n     for j_ in u6]\n'),
+    ('chained-comparison-and-slices', 'r = u1 < u2 < u3; s = u4[u5:u6:u7]\n', 'r = (u1 <\n     u2 <\n     u3)\ns = u4[u5:\n       u6:\n       u7]\n'),
+    ('in-a-function-next-to-unused-locals', 'def g_():\n    v_ = 1; w_ = 2\n    return u1 if u2 else u3\n',
+     'def g_():\n    v_ = 1\n    w_ = 2\n    return (\n        u1\n        if u2\n        else u3)\n'),
+    ('with-items-and-for-else', 'with u1 as a_, u2 as b_: print(a_, b_)\nfor i_ in u3: print(u4)\nelse: print(u5)\n',
+     'with u1 as a_, \\\n        u2 as b_:\n    print(a_, b_)\nfor i_ in u3:\n    print(u4)\nelse:\n    print(u5)\n'),
+    ('f-string-and-starred', 'r = f"{u1} {u2!r:{u3}}"; s = [*u4, u5]\n', 'r = (f"{u1} "\n     f"{u2!r:{u3}}")\ns = [*u4,\n     u5]\n'),
+]
+
+ORDER_REPLAY = '''import sys; sys.path.insert(0, %(repo)r)
+from supp.linter import lint
+from supp.project import Project
+a, b = %(a)r, %(b)r
+da = [d[:2] for d in lint(Project(['/nonexistent']), a)]
+db = [d[:2] for d in lint(Project(['/nonexistent']), b)]
+print(a); print(da); print(b); print(db)
+print('REPRODUCED: two layouts of one program give the diagnostics in different orders (or different diagnostics)' if da != db else 'not reproduced')
+'''
+
+
+@harness(['C13', 'C10'], 'supp.linter.lint [diagnostics of two layouts of one program, in corresponding order]',
+         bounded='11 pairs (one line / broken over lines) of constructs whose tree order differs from their text order - conditional expressions, '
+                 'keyword and starred arguments, decorators / annotations / defaults, class keywords, lambda defaults, comprehensions, chained '
+                 'comparisons, slices, with items, for-else, f-strings - each with 2 to 7 undefined names; the pairs parse to equal trees')
+def diagnostic_order_layouts(run):
+    """BOUNDED: the list of (code, message) pairs lint returns is the same, element by element, for two layouts of one program.  Not counted as
+    proved."""
+    import ast
+    import supp.linter as L
+    import supp.project as Pj
+
+    def go(path):
+        for label, a, b in ORDER_PAIRS:
+            same_tree = ast.dump(ast.parse(a)) == ast.dump(ast.parse(b))
+            prove('%s:the-two-layouts-are-one-program' % label, same_tree, kind='lemma', path=path)
+            if not same_tree:
+                continue
+            da = [d[:2] for d in L.lint(Pj.Project(['/nonexistent']), a)]
+            db = [d[:2] for d in L.lint(Pj.Project(['/nonexistent']), b)]
+            if da != db:
+                core.RUN.concretise = lambda model, ob, a=a, b=b: {'input': {'one-line': a, 'broken': b}, 'script': ORDER_REPLAY % {'repo': core.REPO, 'a': a, 'b': b}}
+            prove('%s:same-diagnostics-in-the-same-order' % label, da == db and len(da) >= 2,
+                  clause='codes and messages in corresponding order [%r vs %r]' % (da, db), path=path)
+            core.RUN.concretise = None
+    core.explore(lambda: None, lambda p, out: go(p))
